@@ -139,6 +139,13 @@ add("C12", "exploration",
     "Oracle = the walker in mon/c12/walk.go over the exported maps + the node's UTXO dump + /verif/ref/reftx; txpool.MempoolCheck() is reported as auxiliary evidence only. Replays are not bit-exact because map iteration order inside txpool varies.",
     "DESIGN.md §3 C12")
 
+add("C18", "exploration",
+    "hostile-input runtime monitor: the real dispatch loop OneConnection.Run() is driven over scripted in-memory connections (framed messages for every command, truncations, count/length disagreements, size limits, random bytes, sequences before/after the handshake) in journaling child workers; panic / recover-banner, lock-leak (TryLock on every node mutex), hang watchdog and library-parser monitors; benign-conversation self-test before every batch",
+    "Held on the conversations observed: ~6500 scripted connections / ~19k dispatched messages / 80k library parser calls per quick run over all commands of the property: no handler panicked (caught by Run's recover or not), no mutex was left locked after Run returned, no handler or parser exceeded its step watchdog (3/3 reproducible with the same frame = violation, else inconclusive), no worker died; "
+    "witnesses of the 12 repaired findings are replayed in every run.",
+    "The harness initialises what client/main.go initialises before accepting connections; NetBlocks elements are dropped (the main loop is not part of this property), NetTxs go through the real HandleNetTx. Time-driven paths (ping interval, header/block timeouts) are not reached.",
+    "DESIGN.md §3 C18")
+
 NOT_BUILT = {}
 
 def main():
